@@ -413,8 +413,17 @@ func ruleWatch(c *Ctx, p *core.Program, r *doRoles, prop string) {
 				c.R.Bad(rule, core.FuncName(cl), cfg, p.Pos(cl.Pos()), "goroutine does not run under the errgroup context")
 			}
 		}
-		// Do returns Wait()
+		// Do returns Wait(): a return after Wait yields its error (possibly wrapped),
+		// or nil only on the nil edge of a test of that error.
 		wv := r.Wait.Value()
+		wal := core.Aliases(r.Do, wv)
+		nilEdges := core.CondEdges(r.Do, false, func(cond ssa.Value) (bool, bool) {
+			x, nonNil, ok := nilCmp(cond)
+			if !ok || !wal[x] {
+				return false, false
+			}
+			return nonNil, true
+		})
 		for _, b := range r.Do.Blocks {
 			for _, in := range b.Instrs {
 				ret, ok := in.(*ssa.Return)
@@ -422,7 +431,10 @@ func ruleWatch(c *Ctx, p *core.Program, r *doRoles, prop string) {
 					continue
 				}
 				rv := core.ReturnErr(r.Do, ret)
-				if rv != wv {
+				switch {
+				case wal[rv] || chainKeeps(rv, func(v ssa.Value) bool { return wal[v] }, 0):
+				case core.IsNilConst(rv) && len(nilEdges) > 0 && core.OnlyViaEdges(r.Do, ret, nilEdges):
+				default:
 					okAll = false
 					c.R.Bad(rule, core.FuncName(r.Do), cfg, p.Pos(ret.Pos()), "Do does not return the result of g.Wait()")
 				}
